@@ -47,8 +47,17 @@ pub fn run(rng: &mut Rng, out: &mut Out, thorough: bool, _variant: &str) {
     let pid = std::process::id() as u64;
     let reps = if thorough { 4 } else { 1 };
     for _ in 0..reps {
+        // the last pair makes more than 2^16 calls in one run, so a counter narrower than a machine word
+        // would reissue counts within the run
+        let mut grid: Vec<(usize, usize)> = Vec::new();
         for &t in [1usize, 2, 4, 8, 16].iter() {
             for &k in [1usize, 10, 200, 2000].iter() {
+                grid.push((t, k));
+            }
+        }
+        grid.push((4, 20000));
+        for &(t, k) in grid.iter() {
+            {
                 let style = rng.below(5);
                 let parts: Vec<String> = (0..t).map(|tid| part_for(rng, style, tid)).collect();
                 // the counter is process-global: one sentinel call tells where this run starts
